@@ -164,25 +164,57 @@ Definition table_matches_spec (d : db) (nt : string * tobs) : bool :=
   | _, _ => false
   end.
 
+(* row ids are never reused: an id that shows up in a table and was not there at the previous
+   read-back of that table must be larger than every id seen anywhere before *)
+Definition ids_of (t : tobs) : list N := match t with TRows _ r => map fst r | _ => [] end.
+
+Fixpoint prev_ids (n : string) (seen : list (string * list N)) : list N :=
+  match seen with [] => [] | (m, ids) :: r => if String.eqb m n then ids else prev_ids n r end.
+
+Definition fresh_ok (seen : list (string * list N)) (gmax : N) (nt : string * tobs) : bool :=
+  let '(n, t) := nt in
+  let old := prev_ids n seen in
+  forallb (fun i => existsb (N.eqb i) old || N.ltb gmax i) (ids_of t).
+
+Fixpoint set_seen (n : string) (ids : list N) (seen : list (string * list N)) : list (string * list N) :=
+  match seen with
+  | [] => [(n, ids)]
+  | (m, x) :: r => if String.eqb m n then (n, ids) :: r else (m, x) :: set_seen n ids r
+  end.
+
+Definition is_sys (n : string) : bool := String.eqb n "sys_pages" || String.eqb n "sys_schema".
+
 (* walks the history; at every table read-back, every table must hold exactly what the
    specification derives from the statements acknowledged so far (whatever flushes, crashes
-   and recoveries happened in between); no statement may panic; no recovery may fail.
-   `prev` = statements acknowledged so far, most recent first. *)
-Fixpoint spec_ok (prev : list stmt) (evs : list hevent) (obs : list hobs) : bool :=
+   and recoveries happened in between); no statement may panic; no recovery may fail; row ids
+   are never reused. `cands` = the databases the specification allows at this point (one,
+   except after a crash inside a log append, where any row-operation prefix is allowed). *)
+Fixpoint spec_ok (cands : list db) (seen : list (string * list N)) (gmax : N)
+         (evs : list hevent) (obs : list hobs) : bool :=
   match evs, obs with
   | [], [] => true
   | HEv (EvStmt st) :: er, HOut o :: orr =>
       match o with
-      | OBok => spec_ok (st :: prev) er orr
-      | OBerr _ => spec_ok prev er orr
+      | OBok =>
+          let c' := flat_map (fun d => ok_dbs (spec_exec d st)) cands in
+          negb (Nat.eqb (List.length c') 0) && spec_ok c' seen gmax er orr
+      | OBerr _ => spec_ok cands seen gmax er orr
       | OBpanic => false
       end
-  | HEv EvFlush :: er, HOut OBok :: orr => spec_ok prev er orr
-  | HEv EvCrash :: er, HOut OBok :: orr => spec_ok prev er orr
+  | HEv EvFlush :: er, HOut OBok :: orr => spec_ok cands seen gmax er orr
+  | HEv EvCrash :: er, HOut OBok :: orr => spec_ok cands seen gmax er orr
+  | HEv (EvCrashInLog st _) :: er, HOut OBok :: orr =>
+      (* some prefix of the statement's row operations, in order *)
+      spec_ok (flat_map (fun d => stmt_prefixes d st) cands) seen gmax er orr
   | HReadTables _ :: er, HTables l :: orr =>
-      forallb (table_matches_spec (spec_run [] (rev prev))) l && spec_ok prev er orr
-  | HDumpPages :: er, _ :: orr => spec_ok prev er orr
+      let user := filter (fun nt => negb (is_sys (fst nt))) l in
+      let c' := filter (fun d => forallb (table_matches_spec d) l) cands in
+      negb (Nat.eqb (List.length c') 0) &&
+      forallb (fresh_ok seen gmax) user &&
+      spec_ok c' (fold_left (fun acc nt => set_seen (fst nt) (ids_of (snd nt)) acc) user seen)
+              (fold_left N.max (flat_map (fun nt => ids_of (snd nt)) user) gmax) er orr
+  | HDumpPages :: er, _ :: orr => spec_ok cands seen gmax er orr
   | _, _ => false
   end.
 
-Definition spec_accepts (c : hcase) : bool := spec_ok [] (fst c) (snd c).
+Definition spec_accepts (c : hcase) : bool := spec_ok [[]] [] 0 (fst c) (snd c).
